@@ -1773,6 +1773,206 @@ theorem shannonDiscrete_eq (v : List ℝ) (base : ℝ) :
     | cons e es ih => intro a; simp only [List.foldl_cons, List.map_cons, List.sum_cons]; rw [ih]; simp; ring
   rw [this, countMap_sum v (fun _ c => (c / (v.length : ℝ)) * Real.log (c / (v.length : ℝ)) / Real.log base)]
   simp
+
+/-! joint count map, miDiscrete -/
+
+/-- the inner map of the row `a` holds the occurrence counts of the pairs `(a, ·)` -/
+def RowInv (a : ℝ) (inner : List (ℝ × ℝ)) (l : List (ℝ × ℝ)) : Prop :=
+  SortedKeys inner ∧ ∀ b, mapGet? Scalar.ltb b inner = if l.count (a, b) = 0 then none else some (l.count (a, b) : ℝ)
+
+/-- invariant of the joint count map after processing the pairs `l` -/
+def Count2Inv (m : List (ℝ × List (ℝ × ℝ))) (l : List (ℝ × ℝ)) : Prop :=
+  SortedKeys m ∧ ∀ a, match mapGet? Scalar.ltb a m with
+    | none => ∀ b, l.count (a, b) = 0
+    | some inner => RowInv a inner l
+
+theorem rowInv_nil (a : ℝ) (l : List (ℝ × ℝ)) (h : ∀ b, l.count (a, b) = 0) : RowInv a [] l :=
+  ⟨by simp [SortedKeys], by intro b; simp [mapGet?, h b]⟩
+
+theorem count2_fold (z l : List (ℝ × ℝ)) (m : List (ℝ × List (ℝ × ℝ))) (h : Count2Inv m l) :
+    Count2Inv (z.foldl (fun m (ab : ℝ × ℝ) =>
+      mapUpdate Scalar.ltb ab.1 (fun o => mapUpdate Scalar.ltb ab.2 (fun c => c.getD Scalar.zero + Scalar.one) (o.getD [])) m) m) (l ++ z) := by
+  induction z generalizing m l with
+  | nil => simpa using h
+  | cons ab rest ih =>
+    obtain ⟨a, b⟩ := ab
+    simp only [List.foldl_cons]
+    have := ih (l ++ [(a, b)]) (mapUpdate Scalar.ltb a (fun o => mapUpdate Scalar.ltb b (fun c => c.getD Scalar.zero + Scalar.one) (o.getD [])) m) ?_
+    · simpa using this
+    · obtain ⟨hs, hg⟩ := h
+      refine ⟨(mapUpdate_keys _ real_ltb_iff a _ m hs).1, ?_⟩
+      intro a'
+      rw [mapGet?_update _ real_ltb_iff a _ m hs a']
+      by_cases ha : a' = a
+      · subst ha
+        simp only [if_true]
+        -- the old row (possibly absent)
+        have hold : RowInv a' ((mapGet? Scalar.ltb a' m).getD []) l := by
+          have := hg a'
+          cases hget : mapGet? Scalar.ltb a' m with
+          | none => rw [hget] at this; exact rowInv_nil a' l this
+          | some inner => rw [hget] at this; exact this
+        obtain ⟨hs', hg'⟩ := hold
+        refine ⟨(mapUpdate_keys _ real_ltb_iff b _ _ hs').1, ?_⟩
+        intro b'
+        rw [mapGet?_update _ real_ltb_iff b _ _ hs' b']
+        by_cases hb : b' = b
+        · subst hb
+          simp only [if_true, hg' b', List.count_append, List.count_singleton_self]
+          by_cases hc : l.count (a', b') = 0 <;> simp [hc]
+        · simp only [hb, if_false, hg' b', List.count_append]
+          have : [(a', b)].count (a', b') = 0 := by
+            simp only [List.count_singleton, beq_iff_eq, Prod.mk.injEq, true_and]
+            simp [Ne.symm hb]
+          simp [this]
+      · simp only [ha, if_false]
+        have hcnt : ∀ b', (l ++ [(a, b)]).count (a', b') = l.count (a', b') := by
+          intro b'
+          have : [(a, b)].count (a', b') = 0 := by
+            simp only [List.count_singleton, beq_iff_eq, Prod.mk.injEq]
+            simp [Ne.symm ha]
+          simp [List.count_append, this]
+        have := hg a'
+        cases hget : mapGet? Scalar.ltb a' m with
+        | none => rw [hget] at this; simpa [hcnt] using this
+        | some inner =>
+          rw [hget] at this
+          obtain ⟨i1, i2⟩ := this
+          exact ⟨i1, by intro b'; rw [hcnt b']; exact i2 b'⟩
+
+theorem countMap2_inv (v1 v2 : List ℝ) : Count2Inv (countMap2 v1 v2) (List.zip v1 v2) := by
+  have := count2_fold (List.zip v1 v2) [] [] ⟨by simp [SortedKeys], by intro a; simp [mapGet?]⟩
+  simpa [countMap2] using this
+
+/-- the entries of the joint count map -/
+theorem countMap2_mem (v1 v2 : List ℝ) (a b c : ℝ) :
+    (∃ inner, (a, inner) ∈ countMap2 v1 v2 ∧ (b, c) ∈ inner) ↔
+      (a, b) ∈ List.zip v1 v2 ∧ c = ((List.zip v1 v2).count (a, b) : ℝ) := by
+  obtain ⟨hs, hg⟩ := countMap2_inv v1 v2
+  constructor
+  · rintro ⟨inner, h1, h2⟩
+    have hget := (mapGet?_eq_some_iff _ real_ltb_iff _ hs a inner).mpr h1
+    have := hg a
+    rw [hget] at this
+    obtain ⟨i1, i2⟩ := this
+    have hb := (mapGet?_eq_some_iff _ real_ltb_iff _ i1 b c).mpr h2
+    rw [i2 b] at hb
+    by_cases hc : (List.zip v1 v2).count (a, b) = 0
+    · simp [hc] at hb
+    · simp only [hc, if_false, Option.some.injEq] at hb
+      exact ⟨by by_contra h; exact hc (List.count_eq_zero.mpr h), hb.symm⟩
+  · rintro ⟨hmem, rfl⟩
+    have hc : (List.zip v1 v2).count (a, b) ≠ 0 := fun h => (List.count_eq_zero.mp h) hmem
+    have := hg a
+    cases hget : mapGet? Scalar.ltb a (countMap2 v1 v2) with
+    | none => rw [hget] at this; exact absurd (this b) hc
+    | some inner =>
+      rw [hget] at this
+      obtain ⟨i1, i2⟩ := this
+      refine ⟨inner, (mapGet?_eq_some_iff _ real_ltb_iff _ hs a inner).mp hget, ?_⟩
+      rw [← mapGet?_eq_some_iff _ real_ltb_iff _ i1, i2 b]; simp [hc]
+
+/-- the joint count map flattened to ((a,b), count) entries -/
+def flat2 (m : List (ℝ × List (ℝ × ℝ))) : List ((ℝ × ℝ) × ℝ) :=
+  m.flatMap (fun row => row.2.map (fun kc => ((row.1, kc.1), kc.2)))
+
+theorem flat2_mem (v1 v2 : List ℝ) (p : ℝ × ℝ) (c : ℝ) :
+    (p, c) ∈ flat2 (countMap2 v1 v2) ↔ p ∈ List.zip v1 v2 ∧ c = ((List.zip v1 v2).count p : ℝ) := by
+  obtain ⟨a, b⟩ := p
+  rw [← countMap2_mem]
+  simp only [flat2, List.mem_flatMap, List.mem_map, Prod.mk.injEq, Prod.exists]
+  constructor
+  · rintro ⟨a', inner, h1, b', c', h2, ⟨rfl, rfl⟩, rfl⟩; exact ⟨inner, h1, h2⟩
+  · rintro ⟨inner, h1, h2⟩; exact ⟨a, inner, h1, b, c, h2, ⟨rfl, rfl⟩, rfl⟩
+
+theorem flat2_keys_nodup (v1 v2 : List ℝ) : ((flat2 (countMap2 v1 v2)).map (·.1)).Nodup := by
+  obtain ⟨hs, hg⟩ := countMap2_inv v1 v2
+  have hrows : ∀ row ∈ countMap2 v1 v2, SortedKeys row.2 := by
+    intro row hrow
+    have hget := (mapGet?_eq_some_iff _ real_ltb_iff _ hs row.1 row.2).mpr hrow
+    have := hg row.1
+    rw [hget] at this
+    exact this.1
+  generalize countMap2 v1 v2 = m at hs hrows
+  unfold flat2
+  induction m with
+  | nil => simp
+  | cons row rest ih =>
+    have hrest : SortedKeys rest := (List.pairwise_cons.mp hs).2
+    have hk : ∀ x ∈ rest.map (·.1), row.1 < x := (List.pairwise_cons.mp hs).1
+    simp only [List.flatMap_cons, List.map_append, List.map_map]
+    rw [List.nodup_append]
+    refine ⟨?_, ih hrest (fun r hr => hrows r (List.mem_cons_of_mem _ hr)), ?_⟩
+    · have hsr := hrows row (by simp)
+      have : (row.2.map ((fun x => x.1) ∘ fun kc => ((row.1, kc.1), kc.2))) = (row.2.map (·.1)).map (fun b => (row.1, b)) := by
+        rw [List.map_map]; rfl
+      rw [this]
+      apply List.Nodup.map
+      · intro b b' h; exact (Prod.mk.inj h).2
+      · exact hsr.imp (fun {x y} h => ne_of_lt h)
+    · intro p hp q hq hpq
+      obtain ⟨kc, -, rfl⟩ := List.mem_map.mp hp
+      simp only [List.mem_map, List.mem_flatMap] at hq
+      obtain ⟨e, ⟨row', hrow', hin⟩, rfl⟩ := hq
+      obtain ⟨kc', -, rfl⟩ := hin
+      have : row.1 = row'.1 := (Prod.mk.inj hpq).1
+      have hl := hk row'.1 (List.mem_map.mpr ⟨row', hrow', rfl⟩)
+      rw [this] at hl; exact absurd hl (lt_irrefl _)
+
+theorem fold2_eq (G : ℝ → ℝ → ℝ → ℝ) (m : List (ℝ × List (ℝ × ℝ))) (a : ℝ) :
+    m.foldl (fun s (row : ℝ × List (ℝ × ℝ)) => row.2.foldl (fun s (kc : ℝ × ℝ) => s + G row.1 kc.1 kc.2) s) a =
+      a + ((flat2 m).map (fun e => G e.1.1 e.1.2 e.2)).sum := by
+  have inner : ∀ (r : ℝ) (l : List (ℝ × ℝ)) (s : ℝ),
+      l.foldl (fun s (kc : ℝ × ℝ) => s + G r kc.1 kc.2) s = s + (l.map (fun kc => G r kc.1 kc.2)).sum := by
+    intro r l
+    induction l with
+    | nil => intro s; simp
+    | cons e es ih => intro s; simp only [List.foldl_cons, List.map_cons, List.sum_cons]; rw [ih]; ring
+  induction m generalizing a with
+  | nil => simp [flat2]
+  | cons row rest ih =>
+    simp only [List.foldl_cons]
+    rw [ih, inner]
+    simp only [flat2, List.flatMap_cons, List.map_append, List.sum_append, List.map_map]
+    rw [add_assoc]; rfl
+
+/-- a sum over the joint count map is a sum over the distinct observed pairs -/
+theorem countMap2_sum (v1 v2 : List ℝ) (G : ℝ → ℝ → ℝ → ℝ) :
+    ((flat2 (countMap2 v1 v2)).map (fun e => G e.1.1 e.1.2 e.2)).sum =
+      ∑ p ∈ (List.zip v1 v2).toFinset, G p.1 p.2 ((List.zip v1 v2).count p : ℝ) := by
+  have hnd := flat2_keys_nodup v1 v2
+  have hval : (flat2 (countMap2 v1 v2)).map (fun e => G e.1.1 e.1.2 e.2) =
+      ((flat2 (countMap2 v1 v2)).map (·.1)).map (fun p => G p.1 p.2 ((List.zip v1 v2).count p : ℝ)) := by
+    rw [List.map_map]
+    apply List.map_congr_left
+    intro e he
+    have := (flat2_mem v1 v2 e.1 e.2).mp he
+    simp [this.2]
+  have hfs : ((flat2 (countMap2 v1 v2)).map (·.1)).toFinset = (List.zip v1 v2).toFinset := by
+    ext p
+    simp only [List.mem_toFinset, List.mem_map]
+    constructor
+    · rintro ⟨e, he, rfl⟩; exact ((flat2_mem v1 v2 e.1 e.2).mp he).1
+    · intro hp; exact ⟨(p, _), (flat2_mem v1 v2 p _).mpr ⟨hp, rfl⟩, rfl⟩
+  rw [hval, ← List.sum_toFinset _ hnd, hfs]
+
+theorem miDiscrete_eq (v1 v2 : List ℝ) (base : ℝ) (h : v1.length = v2.length) :
+    miDiscrete v1 v2 base = .ok (∑ p ∈ (List.zip v1 v2).toFinset,
+      (((List.zip v1 v2).count p : ℝ) / v1.length) *
+        Real.log (((List.zip v1 v2).count p : ℝ) * v1.length / ((v1.count p.1 : ℝ) * (v2.count p.2 : ℝ))) / Real.log base) := by
+  unfold miDiscrete
+  rw [if_neg (by simpa using h)]
+  simp only
+  congr 1
+  have hget : ∀ (v : List ℝ) (k : ℝ), (mapGet? Scalar.ltb k (countMap v)).getD 0 = (v.count k : ℝ) := fun v k => by
+    have := countMap_get v k; simpa using this
+  simp only [ofInt_eq, Int.cast_natCast, log_eq, zero_eq, hget]
+  have key := fold2_eq (fun a b c => (c / (v1.length : ℝ)) *
+      Real.log (c * (v1.length : ℝ) / ((v1.count a : ℝ) * (v2.count b : ℝ))) / Real.log base) (countMap2 v1 v2) 0
+  have key2 := countMap2_sum v1 v2 (fun a b c => (c / (v1.length : ℝ)) *
+      Real.log (c * (v1.length : ℝ) / ((v1.count a : ℝ) * (v2.count b : ℝ))) / Real.log base)
+  rw [zero_add] at key
+  exact key.trans key2
 end CountMaps
 
 end Bpp.VecTools
